@@ -185,3 +185,20 @@ class RootDataset(KDDataset):
 
     def getall_class(self):
         return [self.getitem_class(i) for i in range(self.size)]
+
+
+class PlainTorchDataset(torch.utils.data.Dataset):
+    """an ordinary torch dataset returning (x, class) tuples - the thing TorchWrapper adapts"""
+
+    def __init__(self, size, n_classes=3):
+        self.size = size
+        self.n_classes = n_classes
+
+    def __len__(self):
+        return self.size
+
+    def __getitem__(self, idx):
+        idx = int(idx)
+        if not 0 <= idx < self.size:
+            raise IndexError(idx)
+        return ((torch.arange(3 * 16 * 16).float().view(3, 16, 16) * (idx + 2)) % 23) / 23, (idx * 7 + 1) % self.n_classes
